@@ -170,6 +170,17 @@ Section Maps.
     - apply ival_eqb_neq in E. tauto.
   Qed.
 
+  Lemma In_lget m k v : ksorted m -> In (k, v) m -> lget k m = Some v.
+  Proof.
+    induction m as [|[k' w] m IH]; intros Hs Hin; [destruct Hin|].
+    pose proof (ksorted_inv Hs) as [Hs' Hf]. cbn [L1D.lget].
+    destruct Hin as [E|Hin].
+    - inversion E; subst. rewrite ival_eqb_refl. reflexivity.
+    - destruct (ival_eqb k k') eqn:E; [|apply IH; assumption].
+      apply ival_eqb_eq in E. subst k'. exfalso. rewrite Forall_forall in Hf.
+      apply (@ilt_irrefl k). apply Hf. unfold keys. apply in_map_iff. exists (k, v). split; [reflexivity|exact Hin].
+  Qed.
+
   (* two key-sorted maps with the same lookups are equal *)
   Lemma ksorted_ext m1 : forall m2, ksorted m1 -> ksorted m2 ->
     (forall i, lget i m1 = lget i m2) -> m1 = m2.
